@@ -13,19 +13,39 @@
 //!    number of decimal places, and as its exact binary value.  The oracle is exact decimal arithmetic on dyadic rationals
 //!    (no floating-point parser takes part): a spelling that lies strictly between the two midpoints that bound the
 //!    rounding interval of v defines v and nothing else.
+//!  * how the filter pipeline of the structural streams (cross-reference stream, object stream) is written (`Ext`): the
+//!    filter {FlateDecode, LZWDecode} x the spelling of /Filter and /DecodeParms that ISO 32000-1 Table 5 allows {name +
+//!    dictionary, array of one name + dictionary, array of one name + array of one dictionary (or null), chain
+//!    [/ASCII85Decode /<filter>] + array [null dictionary]} x a PNG predictor on the object stream {no, yes} -- crossed with
+//!    the whole style product wherever the file has a filtered structural stream;
+//!  * which end-of-line marker {LF, CR LF, CR} stands inside a literal string, as a line continuation after a REVERSE
+//!    SOLIDUS (not part of the string, 7.3.4.2) at every position of the string, or unescaped (read as one LF whatever
+//!    the marker): the "strings" family, independent of the end-of-line marker of the rest of the file.
 #![allow(dead_code)]
 use crate::common::*;
 use crate::gen::*;
-use lopdf::{Dictionary, Document, Object, Stream, StringFormat};
+use lopdf::{Dictionary, Document, Object, Stream};
 use serde_json::{json, Value};
 use std::collections::BTreeMap;
 use std::io::Write as _;
+
+/// the dimensions of the family that are not part of `Style` (other modules build `Style` values)
+#[derive(Clone, Copy, Debug, Default, PartialEq)]
+pub struct Ext {
+    pub len_home: usize, // see render_ext
+    pub filt: usize,     // the filter of every filtered structural stream: 0 FlateDecode, 1 LZWDecode
+    pub fspell: usize,   // how its /Filter and /DecodeParms are written: 0 name + dictionary, 1 [name] + dictionary, 2 [name] + [dictionary] ([null] without parameters), 3 [/ASCII85Decode name] + [null dictionary] (no DecodeParms without parameters)
+    pub opred: bool,     // the object stream is PNG-predicted (Predictor 15, Columns 7) before it is compressed
+}
 
 #[derive(Clone, Debug)]
 pub struct Style {
     pub eol: usize,        // 0 \n, 1 \r\n, 2 \r
     pub ws: usize,         // 0 single space, 1 extra mixed white-space (incl. NUL, FF, tab), 2 comments between tokens
-    pub strs: usize,       // 0 literal plain escapes, 1 octal escapes + line continuation, 2 hex with white-space / odd digit count
+    pub strs: usize,       // 0 literal plain escapes, 1 octal escapes + line continuation, 2 hex with white-space / odd digit count;
+                           // strings family only: 3 / 4 as 1 with CR LF / CR as the marker of the continuation (continuations after the first byte, two in a row before the fifth, one before the closing parenthesis),
+                           // 5 / 6 / 7 raw: LF written as an unescaped LF / CR LF / CR, balanced parentheses unescaped, superfluous REVERSE SOLIDUS before ordinary letters,
+                           // 100 + 10 p + m: plain escapes and one line continuation with marker m (0 LF, 1 CR LF, 2 CR) before byte p of the string (before the closing parenthesis if the string is shorter)
     pub names: usize,      // 0 plain, 1 #XX for ordinary letters
     pub nums: usize,       // 0 plain, 1 "+7" "-.5" "1." "007"; reals only (integers stay plain): 100+z exact binary expansion with z more zeros,
                            // 1000+d largest decimal with d places below the upper edge of the real's f32 rounding interval, 2000+d smallest decimal with d places above its lower edge
@@ -49,7 +69,57 @@ fn wstr(b: &[u8], s: &Style, out: &mut Vec<u8>) {
     match s.strs {
         0 => { out.push(b'('); for &c in b { match c { b'(' | b')' | b'\\' => { out.push(b'\\'); out.push(c) } b'\r' => out.extend_from_slice(b"\\r"), b'\n' => out.extend_from_slice(b"\\n"), _ => out.push(c) } } out.push(b')'); }
         1 => { out.push(b'('); for (i, &c) in b.iter().enumerate() { if i == 1 { out.extend_from_slice(b"\\\n"); } if c.is_ascii_alphanumeric() && i % 2 == 0 { out.push(c) } else { out.extend_from_slice(format!("\\{:03o}", c).as_bytes()) } } out.push(b')'); }
+        3 | 4 => {
+            let m = string_eol(s.strs - 2);
+            out.push(b'(');
+            for (i, &c) in b.iter().enumerate() {
+                if i == 1 { out.push(b'\\'); out.extend_from_slice(m); }
+                if i == 4 { out.push(b'\\'); out.extend_from_slice(m); out.push(b'\\'); out.extend_from_slice(m); }
+                if c.is_ascii_alphanumeric() && i % 2 == 0 { out.push(c) } else { out.extend_from_slice(format!("\\{:03o}", c).as_bytes()) }
+            }
+            out.push(b'\\'); out.extend_from_slice(m);
+            out.push(b')');
+        }
+        5 | 6 | 7 => {
+            // an unescaped end-of-line marker in a literal string is read as one LF whatever the marker (7.3.4.2); CR itself must be escaped
+            let m = string_eol(s.strs - 5);
+            let mut depth = 0i64; let mut balanced = true;
+            for &c in b { if c == b'(' { depth += 1 } else if c == b')' { depth -= 1; if depth < 0 { balanced = false } } }
+            if depth != 0 { balanced = false }
+            out.push(b'(');
+            for (i, &c) in b.iter().enumerate() {
+                match c {
+                    b'(' | b')' => { if !balanced { out.push(b'\\') } out.push(c) }
+                    b'\\' => out.extend_from_slice(b"\\\\"),
+                    b'\r' => out.extend_from_slice(b"\\r"),
+                    b'\n' => out.extend_from_slice(m),
+                    _ => { if i % 5 == 2 && c.is_ascii_alphabetic() && !b"nrtbf".contains(&c) { out.push(b'\\') } out.push(c) }   // Table 3: a REVERSE SOLIDUS before any other character is ignored
+                }
+            }
+            out.push(b')');
+        }
+        100..=999 => {
+            let (p, m) = ((s.strs - 100) / 10, string_eol((s.strs - 100) % 10));
+            out.push(b'(');
+            for (i, &c) in b.iter().enumerate() {
+                if i == p { out.push(b'\\'); out.extend_from_slice(m); }
+                match c { b'(' | b')' | b'\\' => { out.push(b'\\'); out.push(c) } b'\r' => out.extend_from_slice(b"\\r"), b'\n' => out.extend_from_slice(b"\\n"), _ => out.push(c) }
+            }
+            if p >= b.len() { out.push(b'\\'); out.extend_from_slice(m); }
+            out.push(b')');
+        }
         _ => { out.push(b'<'); let h: String = b.iter().map(|c| format!("{:02X}", c)).collect(); let mut h = h.into_bytes(); if h.ends_with(b"0") { h.pop(); } for (i, c) in h.iter().enumerate() { out.push(*c); if i % 3 == 2 { out.push(b' '); } } out.push(b'>'); }
+    }
+}
+fn string_eol(m: usize) -> &'static [u8] { [b"\n".as_slice(), b"\r\n", b"\r"][m % 3] }
+fn strs_class(strs: usize) -> String {
+    let mk = |m: usize| ["LF", "CR LF", "CR"][m % 3];
+    match strs {
+        0 => "plain escapes".into(), 1 => "octal escapes, line continuation with LF".into(), 2 => "hexadecimal".into(),
+        3 | 4 => format!("octal escapes, line continuations (REVERSE SOLIDUS + {}) after the first byte, twice before the fifth and before the closing parenthesis", mk(strs - 2)),
+        5..=7 => format!("raw: every LF of the string written as an unescaped {}, balanced parentheses unescaped, superfluous REVERSE SOLIDUS before letters", mk(strs - 5)),
+        100..=999 => format!("plain escapes and one line continuation (REVERSE SOLIDUS + {}) before byte {} of the string or before its closing parenthesis", mk((strs - 100) % 10), (strs - 100) / 10),
+        _ => format!("strs {}", strs),
     }
 }
 fn wname(n: &[u8], s: &Style, out: &mut Vec<u8>) {
@@ -216,6 +286,58 @@ fn zlib(data: &[u8]) -> Vec<u8> {
     e.write_all(data).unwrap();
     e.finish().unwrap()
 }
+/// LZW (7.4.4) without compression: a clear-table code, then every byte as its own 9-bit code with the table cleared again
+/// after every 200 codes (the decoder's table never reaches 510 entries, so the code length stays 9 bits under either value of
+/// EarlyChange), then the end-of-data code; codes are packed high-order bit first
+fn lzw_literal(data: &[u8]) -> Vec<u8> {
+    let mut codes: Vec<u16> = vec![256];
+    for (i, b) in data.iter().enumerate() { if i > 0 && i % 200 == 0 { codes.push(256); } codes.push(*b as u16); }
+    codes.push(257);
+    let (mut out, mut acc, mut nbits) = (Vec::new(), 0u32, 0u32);
+    for c in codes { acc = (acc << 9) | c as u32; nbits += 9; while nbits >= 8 { out.push((acc >> (nbits - 8)) as u8); nbits -= 8; acc &= (1 << nbits) - 1; } }
+    if nbits > 0 { out.push((acc << (8 - nbits)) as u8); }
+    out
+}
+/// ASCII base-85 (7.4.3): groups of four bytes as five digits, z for four zero bytes, a final group of n bytes as n + 1 digits,
+/// a line break after every 15 groups, the end-of-data marker ~>
+fn ascii85(data: &[u8]) -> Vec<u8> {
+    let mut out = Vec::new();
+    for (gi, ch) in data.chunks(4).enumerate() {
+        if gi > 0 && gi % 15 == 0 { out.push(b'\n'); }
+        if ch.len() == 4 && ch.iter().all(|b| *b == 0) { out.push(b'z'); continue; }
+        let mut g = [0u8; 4]; g[..ch.len()].copy_from_slice(ch);
+        let mut v = u32::from_be_bytes(g);
+        let mut d = [0u8; 5];
+        for i in (0..5).rev() { d[i] = b'!' + (v % 85) as u8; v /= 85; }
+        out.extend_from_slice(&d[..ch.len() + 1]);
+    }
+    out.extend_from_slice(b"~>");
+    out
+}
+fn filter_name(x: &Ext) -> &'static str { if x.filt == 1 { "LZWDecode" } else { "FlateDecode" } }
+/// the stored data and the /Filter /DecodeParms entries of a filtered structural stream whose decoded data is `payload`
+/// (already predicted if `parms` names a predictor), under the filter and the spelling `x` asks for (ISO 32000-1 Table 5: with
+/// one filter DecodeParms is that filter's dictionary, whether Filter is a name or an array; with an array of filters it is an
+/// array with one entry per filter, null for a filter that takes its defaults)
+fn encode_structural(payload: &[u8], parms: Option<&str>, x: &Ext) -> (Vec<u8>, String) {
+    let f = filter_name(x);
+    let data = if x.filt == 1 { lzw_literal(payload) } else { zlib(payload) };
+    let lone = parms.map(|p| format!("/DecodeParms<<{}>>", p)).unwrap_or_default();
+    match x.fspell {
+        0 => (data, format!("/Filter/{}{}", f, lone)),
+        1 => (data, format!("/Filter[/{}]{}", f, lone)),
+        2 => (data, format!("/Filter [ /{} ]/DecodeParms[{}]", f, parms.map(|p| format!("<<{}>>", p)).unwrap_or_else(|| "null".into()))),
+        _ => (ascii85(&data), format!("/Filter[/ASCII85Decode/{}]{}", f, parms.map(|p| format!("/DecodeParms[null<<{}>>]", p)).unwrap_or_default())),
+    }
+}
+fn ext_note(x: &Ext, has_objstm: bool, xref: usize) -> String {
+    if x.filt == 0 && x.fspell == 0 && !x.opred { return String::new(); }
+    let f = filter_name(x);
+    let spell = match x.fspell { 0 => format!("/Filter /{} with a DecodeParms dictionary where a predictor is used", f), 1 => format!("/Filter [/{}] (array of one name) with a lone DecodeParms dictionary where a predictor is used", f), 2 => format!("/Filter [/{}] with /DecodeParms [<<..>>] ([null] without predictor)", f), _ => format!("/Filter [/ASCII85Decode /{}] with /DecodeParms [null <<..>>] where a predictor is used", f) };
+    format!(" [the filtered structural streams of this file are written with {}; cross-reference stream {}; object stream {}]", spell,
+        match xref { 5 => "PNG-predicted (Predictor 12)", 4 | 8 => "filtered, no predictor", 0 | 1 => "absent (table)", _ => "not filtered" },
+        if !has_objstm { "absent" } else if x.opred { "PNG-predicted (Predictor 15, Columns 7)" } else { "filtered, no predictor" })
+}
 /// PNG prediction with one byte per pixel, cycling through the row filters Up, Sub, Average, Paeth, None
 fn png_up(data: &[u8], cols: usize) -> Vec<u8> {
     let paeth = |a: u8, b: u8, c: u8| -> u8 { let (a1, b1, c1) = (a as i32, b as i32, c as i32); let p = a1 + b1 - c1; let (pa, pb, pc) = ((p - a1).abs(), (p - b1).abs(), (p - c1).abs()); if pa <= pb && pa <= pc { a } else if pb <= pc { b } else { c } };
@@ -265,7 +387,11 @@ pub fn render(doc: &BTreeMap<u32, (u16, Object)>, s: &Style) -> Vec<u8> { render
 /// len_home: 0 direct Length; otherwise every stream of the document gives its Length as a reference to an integer object that
 /// is 1 written in the file body after all other objects, 2 written in the file body before all other objects, 3 a compressed
 /// object in the object stream (needs s.objstm and an xref stream that can express type-2 entries; otherwise as 1)
-pub fn render_ext(doc: &BTreeMap<u32, (u16, Object)>, s: &Style, len_home: usize) -> Vec<u8> {
+pub fn render_ext(doc: &BTreeMap<u32, (u16, Object)>, s: &Style, len_home: usize) -> Vec<u8> { render_full(doc, s, &Ext { len_home, ..Ext::default() }) }
+
+/// render_ext plus the filter pipeline of the structural streams (see `Ext`); with the default pipeline the bytes are those of render_ext
+pub fn render_full(doc: &BTreeMap<u32, (u16, Object)>, s: &Style, x: &Ext) -> Vec<u8> {
+    let len_home = x.len_home;
     let e = eol(s);
     let mut f = Vec::new();
     if s.junk { f.extend_from_slice(b"junk before the header\n\x00\x01"); }
@@ -320,9 +446,13 @@ pub fn render_ext(doc: &BTreeMap<u32, (u16, Object)>, s: &Style, len_home: usize
             entries.insert(*id, (2, cid as u64, i as u64));
         }
         let mut content = index.clone(); content.extend_from_slice(&body);
-        let z = zlib(&content);
+        let (z, extra) = if x.opred {
+            // white-space after the last object fills the last row of the predictor
+            while content.len() % 7 != 0 { content.push(b' '); }
+            encode_structural(&png_up(&content, 7), Some("/Predictor 15/Columns 7"), x)
+        } else { encode_structural(&content, None, x) };
         entries.insert(cid, (1, (f.len() - base) as u64, 0));
-        f.extend_from_slice(format!("{} 0 obj\n<</Type/ObjStm/N {}/First {}/Filter/FlateDecode/Length {}>>stream\n", cid, packed.len(), index.len(), z.len()).as_bytes());
+        f.extend_from_slice(format!("{} 0 obj\n<</Type/ObjStm/N {}/First {}{}/Length {}>>stream\n", cid, packed.len(), index.len(), extra, z.len()).as_bytes());
         f.extend_from_slice(&z); f.extend_from_slice(b"\nendstream\nendobj\n");
     }
     let xref_pos = f.len() - base;
@@ -374,7 +504,7 @@ pub fn render_ext(doc: &BTreeMap<u32, (u16, Object)>, s: &Style, len_home: usize
             if w[2] > 0 { rows.extend_from_slice(&b.to_be_bytes()[8 - w[2]..]); }
         }
         let rl = w[0] + w[1] + w[2];
-        let (data, extra) = match s.xref { 4 | 8 => (zlib(&rows), "/Filter/FlateDecode".to_string()), 5 => (zlib(&png_up(&rows, rl)), format!("/Filter/FlateDecode/DecodeParms<</Predictor 12/Columns {}>>", rl)), _ => (rows.clone(), String::new()) };
+        let (data, extra) = match s.xref { 4 | 8 => encode_structural(&rows, None, x), 5 => encode_structural(&png_up(&rows, rl), Some(&format!("/Predictor 12/Columns {}", rl)), x), _ => (rows.clone(), String::new()) };
         let idx = if s.xref == 2 && list.len() as u32 == size && list.first().map(|x| x.0) == Some(0) { String::new() } else { format!("/Index[{}]", index.trim()) };
         f.extend_from_slice(format!("{} 0 obj\n<</Type/XRef/Size {}/Root 1 0 R/W[{} {} {}]{}{}/Length {}>>stream\n", xid, size, w[0], w[1], w[2], idx, extra, data.len()).as_bytes());
         f.extend_from_slice(&data); f.extend_from_slice(b"\nendstream\nendobj\n");
@@ -386,13 +516,16 @@ pub fn render_ext(doc: &BTreeMap<u32, (u16, Object)>, s: &Style, len_home: usize
     f
 }
 
-pub fn check(variant: usize, s: &Style, len_home: usize) -> Result<(), (String, String)> {
+pub fn check(variant: usize, s: &Style, len_home: usize) -> Result<(), (String, String)> { check_full(variant, s, &Ext { len_home, ..Ext::default() }) }
+
+pub fn check_full(variant: usize, s: &Style, x: &Ext) -> Result<(), (String, String)> {
     // a W [0 n 0] stream can only express type-1 entries; W [1 3 0] defaults generation 0: restrict the abstract document accordingly
     let mut doc = abstract_doc(variant);
     if s.xref == 3 || s.xref == 6 { for (_, (g, _)) in doc.iter_mut() { *g = 0; } }
     let mut st = s.clone();
     if s.xref == 6 { st.objstm = false; }
-    check_bytes(&doc, &st, len_home, &render_ext(&doc, &st, len_home))
+    let has_objstm = st.objstm && st.xref >= 2;
+    check_bytes(&doc, &st, x.len_home, &render_full(&doc, &st, x)).map_err(|(o, d)| (o, format!("{}{}", d, ext_note(x, has_objstm, st.xref))))
 }
 
 /// the first real of `want` that `got` does not hold bit for bit at the same place: (the real the file defines, what was loaded there)
@@ -406,12 +539,41 @@ fn real_mismatch(want: &Object, got: &Object) -> Option<(f32, String)> {
     }
 }
 
+/// the first string of `want` that `got` does not hold byte for byte at the same place: (the string the file defines, what was loaded there)
+fn string_mismatch(want: &Object, got: &Object) -> Option<(Vec<u8>, String)> {
+    match (want, got) {
+        (Object::String(a, _), Object::String(b, _)) => if a == b { None } else { Some((a.clone(), format!("the {} bytes \"{}\"", b.len(), b.escape_ascii()))) },
+        (Object::String(a, _), other) => Some((a.clone(), format!("{:?}", other))),
+        (Object::Array(x), Object::Array(y)) => x.iter().zip(y.iter()).find_map(|(p, q)| string_mismatch(p, q)),
+        (Object::Dictionary(x), Object::Dictionary(y)) => x.iter().find_map(|(k, p)| y.get(k).ok().and_then(|q| string_mismatch(p, q))),
+        _ => None,
+    }
+}
+
+static PANIC_AT: std::sync::Mutex<String> = std::sync::Mutex::new(String::new());
+
+/// run `f` (which may check cases on several threads) with a panic hook that only records where a panic happened
+fn with_quiet_panics<T>(f: impl FnOnce() -> T) -> T {
+    let prev = std::panic::take_hook();
+    std::panic::set_hook(Box::new(|info| { if let (Some(l), Ok(mut g)) = (info.location(), PANIC_AT.lock()) { *g = format!("{}:{}", l.file(), l.line()); } }));
+    let r = f();
+    std::panic::set_hook(prev);
+    r
+}
+/// load a file, turning a panic into Err; does not touch the panic hook, so that cases can run side by side
+fn load_guarded(file: &[u8]) -> Result<lopdf::Result<Document>, String> {
+    std::panic::catch_unwind(|| Document::load_mem(file)).map_err(|e| {
+        let msg = if let Some(s) = e.downcast_ref::<String>() { s.clone() } else if let Some(s) = e.downcast_ref::<&str>() { s.to_string() } else { "panic".to_string() };
+        format!("{} at {}", msg, PANIC_AT.lock().map(|g| g.clone()).unwrap_or_default())
+    })
+}
+
 fn len_home_name(len_home: usize, compressed: bool) -> &'static str {
     match len_home { 0 => "direct", 2 => "an indirect object in the file body before the stream", 3 if compressed => "an indirect object compressed in the object stream", _ => "an indirect object in the file body after the stream" }
 }
 
 fn check_bytes(doc: &BTreeMap<u32, (u16, Object)>, s: &Style, len_home: usize, file: &[u8]) -> Result<(), (String, String)> {
-    let loaded = match guarded(|| Document::load_mem(file)) { Ok(Ok(d)) => d, Ok(Err(e)) => return Err(("loads".into(), format!("load failed: {}", e))), Err(p) => return Err(("no-panic".into(), p)) };
+    let loaded = match load_guarded(file) { Ok(Ok(d)) => d, Ok(Err(e)) => return Err(("loads".into(), format!("load failed: {}", e))), Err(p) => return Err(("no-panic".into(), p)) };
     if loaded.version != "1.6" { return Err(("version".into(), format!("version {:?}", loaded.version))); }
     let lens = len_objects(doc, len_home);
     let compressed = len_home == 3 && s.objstm && s.xref >= 2 && s.xref != 6;
@@ -424,6 +586,15 @@ fn check_bytes(doc: &BTreeMap<u32, (u16, Object)>, s: &Style, len_home: usize, f
                     if let Some((v, was)) = real_mismatch(want, got) {
                         let text = real_spelling(v, s.nums).map(|x| x.0).unwrap_or_else(|| format!("{}", v));
                         return Err(("real-nearest".into(), format!("object {} {}: the real spelled {} ({}) is nearer to the f32 {:?} = bits {:#010x} than to any other (it lies strictly between the midpoints to both neighbours), but loaded as {}", id, g, text, nums_class(s.nums), v, v.to_bits(), was)));
+                    }
+                }
+                if s.strs >= 3 {
+                    // the strings family: every string must come back byte for byte
+                    if let Some((v, was)) = string_mismatch(want, got) {
+                        let mut text = Vec::new(); wstr(&v, s, &mut text);
+                        // an unescaped end-of-line marker (classes 5-7) and a line continuation (the other classes) are different rules of 7.3.4.2
+                        let obligation = if (5..=7).contains(&s.strs) { "string-raw-eol" } else { "string-line-continuation" };
+                        return Err((obligation.into(), format!("object {} {}: the string written as \"{}\" ({}) defines the {} bytes \"{}\" (a REVERSE SOLIDUS and the end-of-line marker LF, CR LF or CR after it are not part of the string; an unescaped end-of-line marker is one LF; ISO 32000-1 7.3.4.2), but loaded as {}", id, g, text.escape_ascii(), strs_class(s.strs), v.len(), v.escape_ascii(), was)));
                     }
                 }
                 let same = match (want, got) {
@@ -499,7 +670,50 @@ pub fn check_reals(exp: i32, nums: usize, context: usize) -> Result<(), (String,
     check_bytes(&doc, &s, 0, &render_ext(&doc, &s, 0))
 }
 
-fn style_json(v: usize, s: &Style, len_home: usize) -> Value { json!({"variant": v, "eol": s.eol, "ws": s.ws, "strs": s.strs, "names": s.names, "nums": s.nums, "order": s.order, "xref": s.xref, "objstm": s.objstm, "indirect_len": len_home != 0, "len_home": len_home, "junk": s.junk}) }
+// ---- the strings family ----
+
+/// literal strings with end-of-line bytes, parentheses, REVERSE SOLIDUS, digits and control bytes at the start, the end and next to each other
+pub fn family_strings() -> Vec<&'static [u8]> {
+    vec![b"", b"a", b"\n", b"\r", b"\r\n", b"\n\r", b"\n\n", b"a\nb", b"line 1\r\nline 2\r\n", b"(", b")", b"(())", b")(", b"(a(b)\n)c", b"\\", b"\\n", b"a\\\nb", b"tab\t\x08\x0c\x00\xff", b"12", b"7\n8", b"ends in a REVERSE SOLIDUS\\",
+         b"Well-formed PDFs from any producer\nload to their content", b"nrtbf nrtbf nrtbf"]
+}
+
+/// abstract document 0 plus object 12, an array of the strings of the family, and object 13, a dictionary holding some of them
+pub fn strings_doc() -> BTreeMap<u32, (u16, Object)> {
+    let mut m = abstract_doc(0);
+    let f = family_strings();
+    m.insert(12, (0, Object::Array(f.iter().map(|b| lit(b)).collect())));
+    m.insert(13, (0, Object::Dictionary(dict(vec![(b"Title", lit(f[21])), (b"E", lit(f[0])), (b"W", Object::Array(vec![lit(f[8]), Object::Integer(3), Object::Array(vec![lit(f[13])])])), (b"Z", lit(f[16]))]))));
+    m
+}
+
+/// the places a string can be read from, each with another end-of-line marker for the rest of the file: file body behind a
+/// table / LF, body with comments after every token / CR LF, object stream / CR LF, object stream / CR
+fn strings_context(c: usize, strs: usize) -> Style {
+    match c {
+        0 => Style { eol: 0, ws: 0, strs, names: 0, nums: 0, order: 0, xref: 0, objstm: false, indirect_len: false, junk: false },
+        1 => Style { eol: 1, ws: 2, strs, names: 1, nums: 1, order: 1, xref: 1, objstm: false, indirect_len: false, junk: false },
+        2 => Style { eol: 1, ws: 1, strs, names: 0, nums: 0, order: 0, xref: 2, objstm: true, indirect_len: false, junk: false },
+        _ => Style { eol: 2, ws: 0, strs, names: 1, nums: 0, order: 1, xref: 5, objstm: true, indirect_len: false, junk: true },
+    }
+}
+
+/// every spelling class of strings: the three of the style product, octal with continuations by CR LF / CR, raw with each marker,
+/// and one continuation with each marker before each of the first ten bytes (or at the end of a shorter string)
+fn strings_classes() -> Vec<usize> {
+    let mut v: Vec<usize> = (0..8).collect();
+    for p in 0..10 { for m in 0..3 { v.push(100 + 10 * p + m); } }
+    v
+}
+
+pub fn check_strings(strs: usize, context: usize) -> Result<(), (String, String)> {
+    let doc = strings_doc();
+    let s = strings_context(context, strs);
+    check_bytes(&doc, &s, 0, &render_ext(&doc, &s, 0))
+}
+
+fn style_json(v: usize, s: &Style, x: &Ext) -> Value { json!({"variant": v, "eol": s.eol, "ws": s.ws, "strs": s.strs, "names": s.names, "nums": s.nums, "order": s.order, "xref": s.xref, "objstm": s.objstm, "indirect_len": x.len_home != 0, "len_home": x.len_home, "junk": s.junk, "filt": x.filt, "fspell": x.fspell, "opred": x.opred}) }
+fn ext_from(v: &Value, len_home: usize) -> Ext { Ext { len_home, filt: v["filt"].as_u64().unwrap_or(0) as usize, fspell: v["fspell"].as_u64().unwrap_or(0) as usize, opred: v["opred"].as_bool().unwrap_or(false) } }
 fn style_from(v: &Value) -> (usize, Style, usize) {
     let g = |k: &str| v[k].as_u64().unwrap_or(0) as usize;
     let il = v["indirect_len"].as_bool().unwrap_or(false);
@@ -508,17 +722,69 @@ fn style_from(v: &Value) -> (usize, Style, usize) {
 }
 
 pub fn run(thorough: bool) -> Report {
-    let mut rep = Report::new("(a) 2 abstract documents x every combination of: EOL {LF,CRLF,CR} x white-space {single, mixed incl. NUL/FF/tab, comments} x strings {literal escapes, octal + line continuation, hex with white-space / odd digits} x names {plain, #XX} x numbers {plain, +007 / -.5 / 1.} x body order {asc, desc} x xref {1 table section, many sections, stream W[1 2 1], W[1 3 0]+Index, W[2 4 2] Flate, W[1 2 1] Flate+PNG Up, W[0 2 0], W[1 2 1] and W[2 4 2] Flate with rows of the reserved entry types 3, 4, 255 (= null object, ISO 32000-1 7.5.8.3) for every unused object number} x object stream {no, yes} x stream Length {direct, indirect: integer object in the body after the stream, in the body before the stream, compressed in the object stream (only with an object stream)} x leading junk {no, yes} (quick: every 7th combination); the Length objects are checked as objects of the file. (b) digit count of reals: for each binade 2^e, e in -40..=40 (quick: -20,-3,-1,0,1,6,23,31), a document holding the 20 reals +-m*2^(e-23), m in {2^23, 2^23+1, 2^23+2, 2^24-1, 2^24-2, 0xAAAAAB, 0xD55554, 0xB504F3, 0xC90FDB, 0xA00001}, in an array and a dictionary, with every real of the file spelled in one class x 4 contexts {table/LF, many sections/CRLF/comments/descending, xref stream + object stream/mixed white-space, Flate+PNG xref stream + object stream/CR/junk}; classes: exact binary value (+0 / +3 zeros), and for every d from 1 to 3 past the last digit of the exact interval edges: the largest d-place decimal below the upper edge and the smallest d-place decimal above the lower edge of the real's f32 rounding interval (a real whose interval has no such member is spelled exactly; a class with no member for any real of the binade is not run). Oracle: exact decimal arithmetic, the spelling lies strictly between the midpoints to both f32 neighbours, so the loaded f32 must equal the abstract one bit for bit", thorough);
-    let mut n = 0usize;
-    for variant in 0..2 { for eol in 0..3 { for ws in 0..3 { for strs in 0..3 { for names in 0..2 { for nums in 0..2 { for order in 0..2 { for xref in 0..9 { for objstm in [false, true] { for len_home in 0..4 { for junk in [false, true] {
+    let mut rep = Report::new("(a) 2 abstract documents x every combination of: EOL {LF,CRLF,CR} x white-space {single, mixed incl. NUL/FF/tab, comments} x strings {literal escapes, octal + line continuation, hex with white-space / odd digits} x names {plain, #XX} x numbers {plain, +007 / -.5 / 1.} x body order {asc, desc} x xref {1 table section, many sections, stream W[1 2 1], W[1 3 0]+Index, W[2 4 2] Flate, W[1 2 1] Flate+PNG Up, W[0 2 0], W[1 2 1] and W[2 4 2] Flate with rows of the reserved entry types 3, 4, 255 (= null object, ISO 32000-1 7.5.8.3) for every unused object number} x object stream {no, yes} x stream Length {direct, indirect: integer object in the body after the stream, in the body before the stream, compressed in the object stream (only with an object stream)} x leading junk {no, yes} x, wherever the file has a filtered structural stream (cross-reference stream W[2 4 2] / Flate+PNG / reserved-type W[2 4 2], or an object stream): spelling of their /Filter and /DecodeParms per ISO 32000-1 Table 5 {/Filter name + DecodeParms dictionary, /Filter [name] (array of one) + lone DecodeParms dictionary, /Filter [name] + /DecodeParms [dictionary] ([null] where no predictor is used), chain /Filter [/ASCII85Decode name] + /DecodeParms [null dictionary] (no DecodeParms where no predictor is used)} x object stream {as compressed, PNG-predicted (Predictor 15, Columns 7, all five row filters) before compression} (DecodeParms is only written for the PNG-predicted streams; 432 lexical x 498 structural combinations); plus the same with LZWDecode (literal codes, table cleared every 200 codes) in place of FlateDecode as the filter of every structural stream: its 456 structural combinations (those with a filtered structural stream) x 12 lexical combinations {2 documents x EOL x body order, white-space and strings indexed like EOL, names and numbers like order} (quick: every 7th combination of the whole list); the Length objects are checked as objects of the file. (c) end-of-line markers inside literal strings: a document holding 23 literal strings (empty, LF / CR / CR LF / LF CR / LF LF alone, at the start, the end and inside, balanced / unbalanced / nested parentheses, REVERSE SOLIDUS alone, before n, before LF and at the end, digits, control bytes, the letters n r t b f) in an array and a nested dictionary, every string of the file spelled in one class x 4 contexts {table/LF, many sections/CR LF/comments/descending, xref stream + object stream/CR LF/mixed white-space, Flate+PNG xref stream + object stream/CR/junk}; classes: the three of (a); octal escapes with line continuations (REVERSE SOLIDUS + marker) after the first byte, two in a row before the fifth byte and before the closing parenthesis, marker CR LF or CR; raw (each LF of the string as an unescaped LF, CR LF or CR, balanced parentheses unescaped, superfluous REVERSE SOLIDUS before letters other than n r t b f); plain escapes with one line continuation by LF, CR LF or CR before byte p of the string for every p in 0..=9 (before the closing parenthesis if the string is shorter) -- 38 classes, independent of the end-of-line marker of the file. Oracle: ISO 32000-1 7.3.4.2 (REVERSE SOLIDUS + end-of-line marker is not part of the string; an unescaped end-of-line marker is one LF), the loaded bytes must equal the abstract string. (b) digit count of reals: for each binade 2^e, e in -40..=40 (quick: -20,-3,-1,0,1,6,23,31), a document holding the 20 reals +-m*2^(e-23), m in {2^23, 2^23+1, 2^23+2, 2^24-1, 2^24-2, 0xAAAAAB, 0xD55554, 0xB504F3, 0xC90FDB, 0xA00001}, in an array and a dictionary, with every real of the file spelled in one class x 4 contexts {table/LF, many sections/CRLF/comments/descending, xref stream + object stream/mixed white-space, Flate+PNG xref stream + object stream/CR/junk}; classes: exact binary value (+0 / +3 zeros), and for every d from 1 to 3 past the last digit of the exact interval edges: the largest d-place decimal below the upper edge and the smallest d-place decimal above the lower edge of the real's f32 rounding interval (a real whose interval has no such member is spelled exactly; a class with no member for any real of the binade is not run). Oracle: exact decimal arithmetic, the spelling lies strictly between the midpoints to both f32 neighbours, so the loaded f32 must equal the abstract one bit for bit", thorough);
+    // the structural part of a combination, in a fixed order: (xref, objstm, Ext, junk)
+    let structural = |filt: usize| -> Vec<(usize, bool, Ext, bool)> {
+    let mut inner: Vec<(usize, bool, Ext, bool)> = Vec::new();
+    for xref in 0..9 { for objstm in [false, true] { for opred in [false, true] { for fspell in 0..4 { for len_home in 0..4 { for junk in [false, true] {
         if objstm && xref < 2 { continue; }
         if len_home == 3 && !(objstm && xref != 6) { continue; }   // W [0 2 0] cannot point into an object stream
-        n += 1;
-        if !thorough && n % 7 != 0 { continue; }
-        let s = Style { eol, ws, strs, names, nums, order, xref, objstm, indirect_len: len_home != 0, junk };
-        rep.case(true);
-        if let Err((o, d)) = check(variant, &s, len_home) { rep.fail(&o, d.clone(), style_json(variant, &s, len_home), d); }
-    } } } } } } } } } } }
+        let has_objstm = objstm && xref != 6;                      // check() writes no object stream under W [0 2 0]
+        if opred && !has_objstm { continue; }
+        if (filt, fspell) != (0, 0) && !(has_objstm || matches!(xref, 4 | 5 | 8)) { continue; }   // no filtered structural stream in the file
+        inner.push((xref, objstm, Ext { len_home, filt, fspell, opred }, junk));
+    } } } } } }
+    inner };
+    // FlateDecode under every lexical combination; LZWDecode (the library's decoder is about ten times as costly per file) under
+    // 12 lexical combinations in which every value of every lexical dimension occurs
+    let inners = [structural(0), structural(1)];
+    let mut outer: Vec<((usize, usize, usize, usize, usize, usize, usize), usize, usize)> = Vec::new();   // lexical part, which structural list, combinations before this group
+    let mut before = 0usize;
+    for variant in 0..2 { for eol in 0..3 { for ws in 0..3 { for strs in 0..3 { for names in 0..2 { for nums in 0..2 { for order in 0..2 { outer.push(((variant, eol, ws, strs, names, nums, order), 0, before)); before += inners[0].len(); } } } } } } }
+    for variant in 0..2 { for eol in 0..3 { for order in 0..2 { outer.push(((variant, eol, eol, eol, order, order, order), 1, before)); before += inners[1].len(); } } }
+    // combination number n (from 1) = place in the product in this order; quick runs every 7th (neither list's length is a multiple of 7)
+    // the groups are shared out among worker threads; each worker is the only thread of a rayon pool of its own, so the
+    // parallel loader runs each load on the very thread that checks the case (no hand-over between the workers)
+    let run_group = |oi: usize| -> (u64, Vec<(String, String, Value)>) {
+        let ((variant, eol, ws, strs, names, nums, order), which, before) = outer[oi];
+        let mut cases = 0u64; let mut fails = Vec::new();
+        for (ii, (xref, objstm, x, junk)) in inners[which].iter().enumerate() {
+            let n = before + ii + 1;
+            if !thorough && n % 7 != 0 { continue; }
+            let s = Style { eol, ws, strs, names, nums, order, xref: *xref, objstm: *objstm, indirect_len: x.len_home != 0, junk: *junk };
+            cases += 1;
+            if let Err((o, d)) = check_full(variant, &s, x) { if fails.len() < 12 { fails.push((o, d, style_json(variant, &s, x))); } }
+        }
+        (cases, fails)
+    };
+    let next = std::sync::atomic::AtomicUsize::new(0);
+    let done: std::sync::Mutex<Vec<(usize, u64, Vec<(String, String, Value)>)>> = std::sync::Mutex::new(Vec::new());
+    let workers = std::thread::available_parallelism().map(|n| n.get()).unwrap_or(4).min(outer.len());
+    with_quiet_panics(|| std::thread::scope(|sc| {
+        for _ in 0..workers {
+            std::thread::Builder::new().stack_size(16 << 20).spawn_scoped(sc, || {
+                let pool = rayon::ThreadPoolBuilder::new().num_threads(1).use_current_thread().build().expect("pool on the current thread");
+                pool.install(|| loop {
+                    let oi = next.fetch_add(1, std::sync::atomic::Ordering::SeqCst);
+                    if oi >= outer.len() { break; }
+                    let (cases, fails) = run_group(oi);
+                    done.lock().unwrap().push((oi, cases, fails));
+                });
+            }).expect("worker thread");
+        }
+    }));
+    let mut groups = done.into_inner().unwrap();
+    groups.sort_by_key(|g| g.0);
+    for (_, cases, fails) in groups {
+        for _ in 0..cases { rep.case(true); }
+        for (o, d, j) in fails { rep.fail(&o, d.clone(), j, d); }
+    }
+    with_quiet_panics(|| {
+        for strs in strings_classes() { for context in 0..4 {
+            rep.case(true);
+            if let Err((o, d)) = check_strings(strs, context) { rep.fail(&o, d.clone(), json!({"family": "strings", "strs": strs, "context": context}), d); }
+        } }
+    });
     let exps: Vec<i32> = if thorough { (-40..=40).collect() } else { vec![-20, -3, -1, 0, 1, 6, 23, 31] };
     for exp in exps {
         let values = binade_reals(exp);
@@ -527,19 +793,24 @@ pub fn run(thorough: bool) -> Report {
             if members == 0 { continue; }
             for context in 0..4 {
                 rep.case(true);
-                if let Err((o, d)) = check_reals(exp, nums, context) { rep.fail(&o, d.clone(), json!({"family": "reals", "exp": exp, "nums": nums, "context": context}), d); }
+                if let Err((o, d)) = with_quiet_panics(|| check_reals(exp, nums, context)) { rep.fail(&o, d.clone(), json!({"family": "reals", "exp": exp, "nums": nums, "context": context}), d); }
             }
         }
     }
     rep.sample("variant 1, CRLF, comments between tokens, octal strings, #XX names, xref stream W[1 2 1] Flate + PNG Up predictor, object stream, Length 13 0 R compressed in the object stream".into());
+    rep.sample("variant 0, LF, xref stream W[1 2 1] /Filter [/ASCII85Decode /LZWDecode] /DecodeParms [null <</Predictor 12/Columns 4>>], object stream /Filter [/ASCII85Decode /LZWDecode] /DecodeParms [null <</Predictor 15/Columns 7>>]".into());
+    rep.sample(format!("strings, class 131 in an object stream: {:?} spelled {:?}", "a\nb", { let mut o = Vec::new(); wstr(b"a\nb", &strings_context(2, 131), &mut o); String::from_utf8_lossy(&o).into_owned() }));
     rep.sample(format!("reals, binade 2^0, class 2025 in an object stream: {:?} spelled {}", real_of(0, 0x80_0001, false), real_spelling(real_of(0, 0x80_0001, false), 2025).map(|x| x.0).unwrap_or_default()));
     rep
 }
 
 pub fn replay(v: &Value) -> Result<(), String> {
     if v["family"].as_str() == Some("reals") {
-        return check_reals(v["exp"].as_i64().unwrap_or(0) as i32, v["nums"].as_u64().unwrap_or(100) as usize, v["context"].as_u64().unwrap_or(0) as usize).map_err(|e| format!("{}: {}", e.0, e.1));
+        return with_quiet_panics(|| check_reals(v["exp"].as_i64().unwrap_or(0) as i32, v["nums"].as_u64().unwrap_or(100) as usize, v["context"].as_u64().unwrap_or(0) as usize)).map_err(|e| format!("{}: {}", e.0, e.1));
+    }
+    if v["family"].as_str() == Some("strings") {
+        return with_quiet_panics(|| check_strings(v["strs"].as_u64().unwrap_or(0) as usize, v["context"].as_u64().unwrap_or(0) as usize)).map_err(|e| format!("{}: {}", e.0, e.1));
     }
     let (variant, s, len_home) = style_from(v);
-    check(variant, &s, len_home).map_err(|e| format!("{}: {}", e.0, e.1))
+    with_quiet_panics(|| check_full(variant, &s, &ext_from(v, len_home))).map_err(|e| format!("{}: {}", e.0, e.1))
 }
